@@ -450,6 +450,9 @@ def generate(unit, template_path, repo=None, canary=False):
             count('R17', n)
             fi.rewrites['R17'] = n
         if fi.is_fn:
+            # R17 (functions): restricted visibility `pub(crate|super|in ..)` widened to `pub` (no run-time effect)
+            body, n = rw.apply_pattern(body, 'pub ( $V:args ) fn', 'pub fn')
+            count('R17', n)
             body, n = rw.r18_mut_self(body)
             count('R18', n)
             if n:
